@@ -232,7 +232,7 @@ def relationships(objs, obj_id, relationship_type=None, source_only=False, targe
     for o in objs:
         if o.get("type") != "relationship":
             continue
-        if relationship_type and o.get("relationship_type") != relationship_type:
+        if relationship_type is not None and o.get("relationship_type") != relationship_type:
             continue
         hit = (not target_only and o.get("source_ref") == obj_id) or (not source_only and o.get("target_ref") == obj_id)
         if hit:
